@@ -1,12 +1,12 @@
 SPECIFICATION Spec
 CONSTANT NU = 4
-CONSTANT ND = 3
-CONSTANT NWU = 3
+CONSTANT ND = 4
+CONSTANT NWU = 4
 CONSTANT NWD = 3
 CONSTANT NS = 3
 CONSTANT WMax = 2
-CONSTANT Modes = {"sign"}
-CONSTANT PFirst = {1, 2, 3, 4, 5}
+CONSTANT Modes = {"dir"}
+CONSTANT PFirst = {1}
 INVARIANT GroupLaws
 INVARIANT DegreesEquivariant
 INVARIANT ReachEquivariant
